@@ -113,6 +113,11 @@ def pred_prune_step(ctx, before, after, step):
     for sid, s in sa.items():
         if not s['kids'] and not post_hoc_ok(ctx, sa, sid, eff_d, eff_n, crits):
             fails.append('leaf %d fails the requested criteria after pruning (min_delta=%d min_npix=%d)' % (sid, eff_d, eff_n))
+    # pruning with criteria every leaf already meets changes nothing
+    if all(post_hoc_ok(ctx, sb, sid, eff_d, eff_n, crits) for sid, s in sb.items() if not s['kids']):
+        if sorted(sa) != sorted(sb) or any(sa[x]['par'] != sb[x]['par'] or sorted(sa[x]['own']) != sorted(sb[x]['own']) for x in sa):
+            fails.append('every leaf already met the requested criteria (min_delta=%d, min_npix=%d) but pruning changed the dendrogram: '
+                         'structures %r -> %r' % (eff_d, eff_n, sorted(sb), sorted(sa)))
     # recorded parameters never decrease
     pb, pa = step.extra['params_before'], step.extra['params_after']
     for k in ('min_delta', 'min_npix'):
